@@ -19,6 +19,7 @@ import (
 
 	"github.com/zeromicro/go-zero/core/collection"
 	"github.com/zeromicro/go-zero/core/logx"
+	"github.com/zeromicro/go-zero/core/timex"
 
 	"verifharness/kit"
 )
@@ -32,6 +33,58 @@ type hTicker struct {
 
 func (t *hTicker) Chan() <-chan time.Time { return t.c }
 func (t *hTicker) Stop()                  {}
+
+// tick returns when the wheel's loop has taken the tick (unbuffered channel).
+func (t *hTicker) tick(sync func()) { t.c <- time.Time{} }
+
+// tickSrc is a ticker the runner can drive tick by tick: tick must hand exactly one tick to the
+// wheel and return only once the wheel's loop has taken it.
+type tickSrc interface {
+	timex.Ticker
+	tick(sync func())
+}
+
+// fTicker drives the wheel through go-zero's own timex.NewFakeTicker (buffered channel of 1):
+// Tick() only puts the tick into the buffer, and the wheel's select may serve other ready
+// requests first, so the runner issues synchronous no-ops until the buffer is empty (len on a
+// receive-only channel is allowed): from then on the loop has taken the tick, and the runner's
+// own sync() that follows returns only after onTick has finished. If Tick() delivered no tick or
+// more than one, every later firing is off by a tick and the reference model reports it.
+type fTicker struct {
+	timex.FakeTicker
+}
+
+func (t fTicker) tick(sync func()) {
+	t.Tick()
+	for len(t.Chan()) > 0 {
+		sync()
+	}
+}
+
+// useFakeTicker selects the ticker of the runners created from now on (set per family; the cases
+// of a child run sequentially).
+var useFakeTicker bool
+
+// wildBase: keys >= wildBase are "wild": the histories apply operations outside the statement's
+// domain to them (delays below one interval). The monitor asserts nothing about them - their
+// firings are only counted - but every other key must behave exactly as the model says.
+const wildBase = 100000
+
+// cbAct is what the callback of a key does on the same wheel, from inside the callback.
+type cbAct struct {
+	K     opKind // opSet, opMove, opRemove
+	Key   int    // target key
+	Steps int
+}
+
+func (a cbAct) String() string { return "cb:" + op{K: a.K, Key: a.Key, Steps: a.Steps}.String() }
+
+// cbScript, when non-nil, maps a firing key to the operation its callback issues on the wheel (as
+// long as the budget lasts); set per case like poisonKeys.
+var (
+	cbScript map[int]cbAct
+	cbBudget int
+)
 
 type opKind int
 
@@ -74,6 +127,9 @@ func frac(d time.Duration) string {
 
 type fired struct {
 	key, val int
+	act      *cbAct // operation the callback issued on the wheel, if any
+	actVal   int    // value of a Set issued by the callback
+	actErr   error
 }
 
 type mtimer struct {
@@ -87,7 +143,11 @@ type mtimer struct {
 type runner struct {
 	n        int
 	tw       *collection.TimingWheel
-	tk       *hTicker
+	tk       tickSrc
+	script   map[int]cbAct
+	budget   int
+	cbOps    int64
+	wild     int64
 	mu       sync.Mutex
 	got      []fired
 	baseline int
@@ -130,10 +190,39 @@ func newRunner(c *kit.Case, n int, seq []op) *runner {
 	if !quiesce(procBaseline) {
 		c.Inconclusive("goroutine count did not return to the process baseline")
 	}
-	r.tk = &hTicker{c: make(chan time.Time)}
+	if useFakeTicker {
+		r.tk = fTicker{timex.NewFakeTicker()}
+	} else {
+		r.tk = &hTicker{c: make(chan time.Time)}
+	}
+	r.script, r.budget = cbScript, cbBudget
 	tw, err := collection.NewTimingWheelWithTicker(interval, n, func(k, v any) {
+		f := fired{key: k.(int), val: v.(int)}
 		r.mu.Lock()
-		r.got = append(r.got, fired{k.(int), v.(int)})
+		if a, ok := r.script[f.key]; ok && r.budget > 0 {
+			r.budget--
+			f.act = &a
+			if a.K == opSet {
+				r.nextVal++
+				f.actVal = r.nextVal
+			}
+		}
+		r.mu.Unlock()
+		if f.act != nil {
+			// the callback re-arms / moves / removes a timer of the wheel it was called by (the
+			// cache cleaner does that for its retries): must neither deadlock nor be lost
+			d := time.Duration(f.act.Steps) * interval
+			switch f.act.K {
+			case opSet:
+				f.actErr = r.tw.SetTimer(f.act.Key, f.actVal, d)
+			case opMove:
+				f.actErr = r.tw.MoveTimer(f.act.Key, d)
+			default:
+				f.actErr = r.tw.RemoveTimer(f.act.Key)
+			}
+		}
+		r.mu.Lock()
+		r.got = append(r.got, f)
 		r.mu.Unlock()
 		if poison[k.(int)] {
 			kit.Obs("callback_panics", 1)
@@ -152,10 +241,79 @@ func (r *runner) sync() { r.tw.RemoveTimer(-1) }
 
 func (r *runner) take() []fired {
 	r.mu.Lock()
-	g := r.got
+	all := r.got
 	r.got = nil
 	r.mu.Unlock()
+	g := all[:0]
+	for _, f := range all {
+		if f.key >= wildBase {
+			r.wild++ // outside the statement's domain: counted, never judged
+			continue
+		}
+		g = append(g, f)
+	}
 	return g
+}
+
+// newVal hands out the next timer value (callbacks that set timers draw from the same counter).
+func (r *runner) newVal() int {
+	r.mu.Lock()
+	r.nextVal++
+	v := r.nextVal
+	r.mu.Unlock()
+	return v
+}
+
+// applyActs replays, in the order the callbacks ran, what the callbacks of this tick did to the
+// wheel. All timers due at a tick are taken off the wheel before the first callback runs, so an
+// operation on a key that fires at the same tick finds no pending timer; the callbacks have
+// returned before the next tick is sent (quiesce), so a timer they arm counts its ticks from the
+// tick at which the callback ran.
+func (r *runner) applyActs(got []fired) {
+	for _, f := range got {
+		if f.act == nil {
+			continue
+		}
+		r.cbOps++
+		a := *f.act
+		if f.actErr != nil {
+			r.c.Viol("C12/api-error/callback-"+opName(a.K), fmt.Sprintf("%s issued from the callback of k%d returned %v", a, f.key, f.actErr), r.witness(""))
+			continue
+		}
+		old, pending := r.model[a.Key]
+		switch a.K {
+		case opSet:
+			switch {
+			case pending:
+				r.rearms++
+				r.model[a.Key] = &mtimer{val: f.actVal, due: r.ticks + a.Steps, armedAt: r.ticks, lastOp: "cb-set-existing", rel: r.relation(old, a.Steps)}
+			case a.Key == f.key:
+				r.model[a.Key] = &mtimer{val: f.actVal, due: r.ticks + a.Steps, armedAt: r.ticks, lastOp: "cb-set-self", rel: "-"}
+			default:
+				r.model[a.Key] = &mtimer{val: f.actVal, due: r.ticks + a.Steps, armedAt: r.ticks, lastOp: "cb-set-new", rel: "-"}
+			}
+			delete(r.drained, a.Key)
+		case opMove:
+			if pending {
+				r.rearms++
+				r.model[a.Key] = &mtimer{val: old.val, due: r.ticks + a.Steps, armedAt: r.ticks, lastOp: "cb-move", rel: r.relation(old, a.Steps)}
+			}
+		default:
+			delete(r.model, a.Key)
+		}
+	}
+}
+
+func opName(k opKind) string {
+	switch k {
+	case opSet:
+		return "set"
+	case opMove:
+		return "move"
+	case opRemove:
+		return "remove"
+	}
+	return "op"
 }
 
 func (r *runner) witness(extra string) map[string]any {
@@ -167,7 +325,27 @@ func (r *runner) witness(extra string) map[string]any {
 	for k, m := range r.model {
 		rels[fmt.Sprintf("k%d", k)] = m.lastOp + " " + m.rel
 	}
-	return map[string]any{"slots": r.n, "ops": s, "detail": extra, "pending_last_rearm_geometry": rels}
+	w := map[string]any{"slots": r.n, "ops": s, "detail": extra, "pending_last_rearm_geometry": rels}
+	if useFakeTicker {
+		w["ticker"] = "timex.NewFakeTicker"
+	}
+	if len(r.script) > 0 {
+		sc := map[string]string{}
+		for k, a := range r.script {
+			sc[fmt.Sprintf("k%d", k)] = a.String()
+		}
+		w["callback_script"] = sc
+		w["callback_budget"] = cbBudget
+	}
+	if len(poisonKeys) > 0 {
+		var pk []int
+		for k := range poisonKeys {
+			pk = append(pk, k)
+		}
+		sort.Ints(pk)
+		w["panicking_keys"] = pk
+	}
+	return w
 }
 
 // relation of old slot / ticked position / new slot at re-arm time
@@ -193,10 +371,22 @@ func (r *runner) relation(old *mtimer, steps int) string {
 
 func (r *runner) apply(o op) {
 	d := time.Duration(o.Steps)*interval + o.Frac
+	if o.Key >= wildBase {
+		// outside the statement's domain (delay below one interval): only "no panic, no deadlock,
+		// no effect on the other keys" is demanded
+		switch o.K {
+		case opSet:
+			r.tw.SetTimer(o.Key, r.newVal(), d)
+		case opMove:
+			r.tw.MoveTimer(o.Key, d)
+		case opRemove:
+			r.tw.RemoveTimer(o.Key)
+		}
+		return
+	}
 	switch o.K {
 	case opSet:
-		r.nextVal++
-		v := r.nextVal
+		v := r.newVal()
 		if err := r.tw.SetTimer(o.Key, v, d); err != nil {
 			r.c.Viol("C12/api-error/set", "SetTimer returned "+err.Error(), r.witness(""))
 			return
@@ -242,7 +432,7 @@ func (r *runner) apply(o op) {
 
 // tick sends one tick and compares what fired with the model's due set.
 func (r *runner) tick() {
-	r.tk.c <- time.Time{}
+	r.tk.tick(r.sync)
 	r.sync()
 	if !quiesce(r.baseline) {
 		r.c.Inconclusive("callback goroutines did not finish")
@@ -281,6 +471,7 @@ func (r *runner) tick() {
 		}
 		_ = k
 	}
+	r.applyActs(got)
 }
 
 func revs(delta, n int) string {
@@ -292,20 +483,33 @@ func revs(delta, n int) string {
 
 // flush ticks long enough for every pending timer (also late ones) to fire.
 func (r *runner) flush() {
-	max := 0
-	for _, m := range r.model {
-		d := m.due
-		if d < 0 {
-			d = -d
+	maxDue := func() int {
+		max := 0
+		for _, m := range r.model {
+			d := m.due
+			if d < 0 {
+				d = -d
+			}
+			if d > max {
+				max = d
+			}
 		}
-		if d-r.ticks > max {
-			max = d - r.ticks
-		}
+		return max
 	}
 	// two extra revolutions so that "fires a revolution late" is observed as late, not as missing
-	total := max + 2*r.n + 2
-	for i := 0; i < total; i++ {
+	end := maxDue()
+	if end < r.ticks {
+		end = r.ticks
+	}
+	end += 2*r.n + 2
+	for r.ticks < end {
 		r.tickLate()
+		if len(r.script) > 0 {
+			// callbacks may arm further timers while the flush is running (their budget is finite)
+			if e := maxDue() + 2*r.n + 2; e > end {
+				end = e
+			}
+		}
 	}
 	for k, m := range r.model {
 		if m.due < 0 {
@@ -319,7 +523,7 @@ func (r *runner) flush() {
 // tickLate is tick() that also classifies overdue timers firing late.
 func (r *runner) tickLate() {
 	// temporarily translate overdue timers: handled inside tick via negative due
-	r.tk.c <- time.Time{}
+	r.tk.tick(r.sync)
 	r.sync()
 	if !quiesce(r.baseline) {
 		r.c.Inconclusive("callback goroutines did not finish")
@@ -358,6 +562,7 @@ func (r *runner) tickLate() {
 			m.due = -m.due
 		}
 	}
+	r.applyActs(got)
 }
 
 // drain is the terminal Drain: every pending timer delivered exactly once, nothing afterwards.
@@ -366,7 +571,7 @@ func (r *runner) drain() {
 		return
 	}
 	for i := 0; i < 2*r.n+2; i++ {
-		r.tk.c <- time.Time{}
+		r.tk.tick(r.sync)
 		r.sync()
 		quiesce(r.baseline)
 		r.ticks++
@@ -383,7 +588,9 @@ func (r *runner) drainDeliver() bool {
 	var got []fired
 	if err := r.tw.Drain(func(k, v any) {
 		mu.Lock()
-		got = append(got, fired{k.(int), v.(int)})
+		if k.(int) < wildBase {
+			got = append(got, fired{key: k.(int), val: v.(int)})
+		}
 		mu.Unlock()
 	}); err != nil {
 		r.c.Viol("C12/api-error/drain", err.Error(), r.witness(""))
@@ -454,9 +661,30 @@ func runSeq(c *kit.Case, n int, seq []op, drain bool) {
 	if r.drains > 0 {
 		c.Obs("mid_sequence_drains", r.drains)
 	}
-	sig := []any{n, drain}
+	if useFakeTicker {
+		c.Obs("fake_ticker_sequences", 1)
+		c.Obs("fake_ticker_ticks", int64(r.ticks))
+	}
+	if r.cbOps > 0 {
+		c.Obs("ops_issued_from_callbacks", r.cbOps)
+	}
+	if r.wild > 0 {
+		c.Obs("subinterval_firings_ignored", r.wild)
+	}
+	sig := []any{n, drain, useFakeTicker}
 	for _, o := range seq {
 		sig = append(sig, o.String())
+	}
+	if len(r.script) > 0 {
+		ks := make([]int, 0, len(r.script))
+		for k := range r.script {
+			ks = append(ks, k)
+		}
+		sort.Ints(ks)
+		for _, k := range ks {
+			sig = append(sig, k, r.script[k].String())
+		}
+		sig = append(sig, cbBudget)
 	}
 	// non-trivial: a pending timer was re-armed after at least one tick had moved the wheel
 	c.Sig(hasRearm && hasTick, sig...)
@@ -641,5 +869,8 @@ func TestVerifC12(t *testing.T) {
 			c.Sample("drain-mid", 1, map[string]any{"slots": n, "keys": keys, "ops": s})
 		}
 	})
+
+	scriptedExtFamilies(t)
+	realFamilies(t)
 	kit.End()
 }
